@@ -226,6 +226,9 @@ func (c *SpecCtx) loadSV(obj, off *Term, T types.Type) SV {
 		}
 	}
 	c.side(typingFacts(Val{T: T, L: out.L}, nil))
+	if !c.clamp && c.tr != nil && c.tr.eng != nil {
+		c.side(c.tr.globalSepFacts(Val{T: T, L: out.L}))
+	}
 	return out
 }
 
@@ -550,6 +553,12 @@ func (c *SpecCtx) callBuiltin(e *Expr) SV {
 			return mathInt(cnt)
 		}
 		return mathBool(Gt(cnt, Int(0)))
+	case "loopfresh": // allocated since the enclosing loop was entered
+		if c.entryCtx == nil {
+			c.fail(e, "loopfresh() is only meaningful in loop invariants")
+		}
+		x := c.eval(e.Args[0])
+		return mathBool(Ge(x.L[0], c.entryCtx.st.Alloc))
 	case "fresh": // allocated during the call / since entry
 		x := c.eval(e.Args[0])
 		return mathBool(And(Ge(x.L[0], c.old.Alloc), Lt(x.L[0], c.st.Alloc)))
@@ -869,6 +878,20 @@ func (c *SpecCtx) quant(e *Expr) SV {
 		return mathBool(Or(alts...))
 	}
 	return mathBool(ex)
+}
+
+// lvals evaluates a modifies-clause item; the typing facts of the cells it reads on the way
+// (e.g. the slice header whose elements are named) are assumed.
+func (c *SpecCtx) lvals(e *Expr) []cellRange {
+	var sides []*Term
+	n := *c
+	n.sides = &sides
+	n.assume = true
+	r := n.evalLval(e)
+	for _, s := range sides {
+		c.tr.vc.Assume(s)
+	}
+	return r
 }
 
 // evalLval evaluates a modifies-clause item into cell ranges.
